@@ -179,7 +179,30 @@ func (e *Enc) instr(in ssa.Instruction, st *State) {
 		hl := st.heapGet(e, lName, arrSort(lSort))
 		st.heap[nName] = e.def(nName, tStore(hn, ch, Term{app("+", tSelect(hn, ch).S, "1"), sInt}))
 		st.heap[lName] = e.def(lName, tStore(hl, ch, tStore(tSelect(hl, ch), tSelect(hn, ch), v)))
-	case *ssa.Range, *ssa.Next, *ssa.TypeAssert, *ssa.MakeClosure, *ssa.MakeChan, *ssa.Go, *ssa.Defer, *ssa.Select:
+	case *ssa.Range:
+		// range over a map: the iterator is the map itself; each Next yields some key the map holds (in no
+		// particular order). Termination of such a loop is Go's (a finite map), not an obligation here.
+		if _, isMap := x.X.Type().Underlying().(*types.Map); !isMap {
+			panic(unsupported{"range over " + x.X.Type().String()})
+		}
+		e.vals[x] = Val{T: e.term(x.X)}
+		e.rangeMaps[x] = x.X.Type().Underlying().(*types.Map)
+	case *ssa.Next:
+		rg, ok := x.Iter.(*ssa.Range)
+		mt := e.rangeMaps[rg]
+		if !ok || mt == nil || x.IsString {
+			panic(unsupported{"next of a non-map iterator"})
+		}
+		m := e.term(rg.X)
+		okv := e.havoc("rng_ok", sBool)
+		k := e.havoc("rng_key", e.reg.sortOf(mt.Key()))
+		e.assumeTyped(mt.Key(), k, st)
+		has := e.mapHas(mt, m, k, st)
+		e.assume(tImp(okv, has))
+		v := e.def("rng_val", e.mapGet(mt, m, k, st))
+		e.assumeTyped(mt.Elem(), v, st)
+		e.vals[x] = Val{Tuple: []Val{{T: okv}, {T: k}, {T: v}}}
+	case *ssa.TypeAssert, *ssa.MakeClosure, *ssa.MakeChan, *ssa.Go, *ssa.Defer, *ssa.Select:
 		e.otherInstr(in, st)
 	default:
 		panic(unsupported{fmt.Sprintf("instruction %T", in)})
